@@ -32,3 +32,6 @@ BOUNDS = {
 OUTSIDE = 'more than ~4 threads, preemptions beyond the bound, preemptions inside the pool-sizing scenario (its interleavings are limited to the choice of the next thread at blocking points), real elapsed time (Time::ticks reads a model clock that the harness advances explicitly), Thread::start failure, weak memory'
 ASSUMPTIONS = ['real src/Future.cpp (included by the harness TU), include/nstd/Future.hpp, Call.hpp, src/Signal.cpp, Thread.cpp, Mutex.cpp on the pthread model; System::getProcessorCount() -> 2 (pool maximum 3)',
                'sequential consistency; no native replay (schedules are re-executed by the engine)']
+
+TECHNIQUE = 'exhaustive bounded enumeration of thread schedules (preemption bound) of the real Future.cpp / Signal.cpp / Thread.cpp IR on an engine model of pthreads by the symbolic executor; the harnesses have no symbolic data, so no solver query is discharged (stated plainly: schedule enumeration, not symbolic reasoning); counterexample schedules are re-executed concretely by the engine'
+LEVEL_TEXT = 'Bounded model checking by exhaustive enumeration of every thread schedule within the preemption bound on the real Future.cpp IR over a pthread model with sequential consistency; all values are concrete, the solver is not consulted (queries_discharged = 0 in the evidence); deadlock = all live threads blocked; counterexamples are schedules re-executed by the engine, not native runs.'
